@@ -1232,6 +1232,9 @@ func (s *LoadingStore[K, V]) Get(ctx context.Context, key K) (V, error) {
 		var result setShardResult[K, V]
 		var entryCost int64
 		var entryExpire int64
+		// true only when the value was promoted from the secondary cache, which then
+		// already holds an identical copy; a value produced by the loader does not
+		var fromSecondary bool
 		loaded, err, _ := shard.group.Do(key, func() (Loaded[V], error) {
 			// load and store should be atomic
 			shard.mu.Lock()
@@ -1256,6 +1259,7 @@ func (s *LoadingStore[K, V]) Get(ctx context.Context, key K) (V, error) {
 					result = s.setShardWithoutLock(shard, h, key, vs, cost, expire, true)
 					entryCost = cost
 					entryExpire = expire
+					fromSecondary = true
 					return Loaded[V]{Value: vs}, nil
 				}
 			}
@@ -1279,7 +1283,7 @@ func (s *LoadingStore[K, V]) Get(ctx context.Context, key K) (V, error) {
 			return loaded, err
 		})
 		if result.entry != nil {
-			s.toPolicy(result, shard, h, entryCost, entryExpire, true)
+			s.toPolicy(result, shard, h, entryCost, entryExpire, fromSecondary)
 		}
 		return loaded.Value, err
 	} else {
